@@ -18,6 +18,7 @@ import (
 	"strings"
 	"sync"
 	"sync/atomic"
+	"syscall"
 	"time"
 
 	. "verifharness/core"
@@ -127,6 +128,7 @@ type upKey struct {
 type routeEngine struct {
 	nodes    []*node
 	deadAddr string
+	deadFd   int
 	ups      map[upKey]*fakeUp
 	order    []upKey // registered upstreams in registration order (reference registry)
 
@@ -152,6 +154,10 @@ func (e *routeEngine) shutdown() {
 		_ = n.ln.Close()
 	}
 	e.nodes = nil
+	if e.deadFd > 0 {
+		_ = syscall.Close(e.deadFd)
+		e.deadFd = 0
+	}
 }
 
 func (e *routeEngine) Reset() {
@@ -166,13 +172,21 @@ func (e *routeEngine) mkNodes(n int) {
 	e.shutdown()
 	e.ups = map[upKey]*fakeUp{}
 	e.order = nil
-	// an address nobody listens on
-	dl, err := net.Listen("tcp", "127.0.0.1:0")
+	// an address nobody listens on: a socket that is bound (so that no other process or case
+	// can be given the port while the case runs) but never listens - connects are refused
+	fd, err := syscall.Socket(syscall.AF_INET, syscall.SOCK_STREAM, 0)
 	if err != nil {
 		panic(err)
 	}
-	e.deadAddr = dl.Addr().String()
-	_ = dl.Close()
+	if err := syscall.Bind(fd, &syscall.SockaddrInet4{Addr: [4]byte{127, 0, 0, 1}}); err != nil {
+		panic(err)
+	}
+	sa, err := syscall.Getsockname(fd)
+	if err != nil {
+		panic(err)
+	}
+	e.deadFd = fd
+	e.deadAddr = "127.0.0.1:" + strconv.Itoa(sa.(*syscall.SockaddrInet4).Port)
 	conf := config.Default().Proxy
 	conf.Timeout = 3 * time.Second
 	conf.AccessLog.Disable = true
